@@ -69,8 +69,15 @@ def check_writer_case(c, il, files):
                     if x[0] == "rot":
                         if cur2 == o: cut = j; break
                         cur2 = x[1]
-                before, bfiles, _ = common.run_w(c["_drvw"], c["script"][:1 + cut]) if cut else ([], {}, 0)
-                full_before = len(bfiles.get("fd%d" % o, b"")) >= c["budgets"].get(o, 0) > 0 or c["budgets"].get(o, 0) == 0 and any(x[0] == "w" and x[1] == o and len(x[2]) > 0 for x in c["seg"][1:]) and False
+                # (the calls before the closing rotation are replayed with a trace: did any write(2) to this output fail or come back short
+                #  while a write() call was in progress?  then that call should have thrown - not the known finding)
+                before, bfiles, _ = common.run_w(c["_drvw"], c["script"][:1 + cut] + ["TRACE"]) if cut else ([], {}, 0)
+                full_before = False
+                for l in before:
+                    t = l.split()
+                    if l.startswith("ev write fd%d " % o) and len(t) >= 4:
+                        a, _, b2 = t[3].partition("/")
+                        if a != b2: full_before = True
                 key = None if full_before else "compressed-close-swallows-failure"
             return ("output %d (%s, %s, budget %d bytes) lost data (%d of %d bytes usable) but no call up to the rotate_output that closed it threw"
                     % (o, c["kind"], c["comp"], c["budgets"].get(o, -1), len(plain) if plain is not None else -1, len(data[o]))), key
